@@ -247,3 +247,15 @@ def r10_5_factory_guards(ctx: Ctx) -> RuleResult:
             else:
                 rr.ok({"factory": f.qual, "param": p, "range": [0, hi]})
     return rr
+
+
+C10_MODULES = ["pyoda_time/_local_time.py", "pyoda_time/_local_date_time.py", "pyoda_time/fields/_time_period_field.py", "pyoda_time/_offset_time.py", "pyoda_time/_time_adjusters.py"]
+
+
+@rule("C10")
+def r10_6_numeric_discipline(ctx: Ctx) -> RuleResult:
+    from ..numeric import check_numeric
+
+    rr = RuleResult("R10.6", "time-of-day arithmetic uses exact integer operations (no float on unbounded amounts; floor only on non-negative operands)", min_instances=7)
+    check_numeric(ctx, rr, C10_MODULES, decoder_exempt={"OffsetTime._offset_seconds", "OffsetTime._offset_nanoseconds"})
+    return rr
